@@ -267,3 +267,26 @@ Lemma choose_unrepaired_refuted : exists ws, nonneg ws /\
   forallb (fun r => match choose_unrepaired (of_weights ws) r with ChIndex 1 => false | _ => true end)
           (zrange (total ws)) = true.
 Proof. exists [5; 1]. split; [repeat constructor; lia|]. vm_compute. reflexivity. Qed.
+
+(** ---------- CountriesAirportsRoutes.chooseTrip: the departure airport by the totals of the airports' route
+    weights, then the route by its weight ---------- *)
+Definition airport_weights (aws : list (list Z)) : list Z := map total aws.
+
+Lemma total_nonneg ws : nonneg ws -> 0 <= total ws.
+Proof.
+  intros H. pose proof (cum_mono ws H 0 (length ws) ltac:(lia)) as Hm. unfold total.
+  unfold cum in Hm at 1. cbn in Hm. exact Hm.
+Qed.
+
+Theorem trip_choice_count aws a j : Forall nonneg aws -> (a < length aws)%nat -> (j < length (nth a aws []))%nat ->
+  Z.of_nat (length (filter (chosen (airport_weights aws) a) (zrange (total (airport_weights aws))))) = total (nth a aws []) /\
+  Z.of_nat (length (filter (chosen (nth a aws []) j) (zrange (total (nth a aws []))))) = nth j (nth a aws []) 0.
+Proof.
+  intros Hall Ha Hj. split.
+  - rewrite choose_count.
+    + unfold airport_weights. change 0 with (total []) at 1. rewrite map_nth. reflexivity.
+    + unfold airport_weights, nonneg. apply Forall_forall. intros w Hw. apply in_map_iff in Hw. destruct Hw as (ws & <- & Hin).
+      apply total_nonneg. rewrite Forall_forall in Hall. apply Hall, Hin.
+    + unfold airport_weights. rewrite map_length. exact Ha.
+  - apply choose_count; [|exact Hj]. rewrite Forall_forall in Hall. apply Hall. apply nth_In. exact Ha.
+Qed.
